@@ -25,7 +25,7 @@ func TestVerifC10ManifestMalformed(t *testing.T) {
 		toks := strings.Split(lines[li], " ")
 		nblk := len(m.Streams[li].Blocks)
 		fileIdx := 1 + nblk + rapid.IntRange(0, len(toks)-nblk-2).Draw(t, "fileIdx")
-		kind = rapid.SampledFrom([]string{"arbitrary-bytes", "no-locators", "no-file-tokens", "non-numeric-pos", "non-numeric-size", "past-end", "locator-without-size", "bad-stream-name", "drop-token", "dup-token", "swap-tokens", "change-char", "huge-number"}).Draw(t, "kind")
+		kind = rapid.SampledFrom([]string{"arbitrary-bytes", "no-locators", "no-file-tokens", "non-numeric-pos", "non-numeric-size", "past-end", "locator-without-size", "bad-stream-name", "drop-token", "dup-token", "swap-tokens", "change-char", "huge-number", "wraparound"}).Draw(t, "kind")
 		switch kind {
 		case "arbitrary-bytes":
 			alphabet := []rune(" \n:+\\/.0123456789abcdef-x\x00é")
@@ -49,6 +49,11 @@ func TestVerifC10ManifestMalformed(t *testing.T) {
 		case "huge-number":
 			p := strings.SplitN(toks[fileIdx], ":", 3)
 			toks[fileIdx] = "99999999999999999999999:" + p[1] + ":" + p[2]
+			mustReject = true
+		case "wraparound":
+			p := strings.SplitN(toks[fileIdx], ":", 3)
+			w := rapid.SampledFrom([]string{"18446744073709551615:1", "18446744073709551615:18446744073709551615", "9223372036854775807:1", "9223372036854775807:9223372036854775807", "18446744073709551614:2", "1:18446744073709551615"}).Draw(t, "wrap")
+			toks[fileIdx] = w + ":" + p[2]
 			mustReject = true
 		case "past-end":
 			p := strings.SplitN(toks[fileIdx], ":", 3)
